@@ -354,6 +354,9 @@ impl Fx {
             // offsets of 24 h or more are not readable values (F32): like any other invalid rule they
             // fall through to the system zone / UTC
             "AAA24", "XXX-24:30", "AAA-24", "AAA24:00:00", "AAA-24:00:01",
+            // second review G7: a DST rule without dates is refused by the rule reader, also when it is
+            // reached only because white space hid the zone FILE of that name; ':' never reads a rule
+            " EST5EDT ", "EST5EDT ", ": EST5EDT", " CET-1CEST",
         ] {
             p.push(mk(g.to_string(), "garbage", Some(self.sys_expect)));
         }
@@ -1683,6 +1686,11 @@ pub fn run(c: &mut Ctx) {
         hists.push(vec![St::Start(a), St::Spawn(1), St::Conv(1, true), St::Set(b), St::Wait(1100), St::Conv(1, false)]);
         c.count("timed.start-with-TZ-set-histories");
         c.count("timed.start-with-TZ-set-histories");
+        // a refresh must move `last_checked`: a change made right after a refresh is NOT seen for the
+        // next second (model comparison only: the property does not demand staleness)
+        let (a, b) = (dist[1 % dist.len()].clone(), dist[dist.len() / 3].clone());
+        hists.push(vec![St::Set(a), St::Conv(0, false), St::Wait(1100), St::Conv(0, true), St::Set(b), St::Wait(150), St::Conv(0, false), St::Conv(0, true)]);
+        c.count("timed.change-right-after-refresh-histories");
     }
     let par = c.n(128, 64);
     run_children(c, &fx, hists, par);
